@@ -90,6 +90,29 @@ CHECKS["C07"] = dict(
          "open known finding (declared upper bound exceeded when minimum limits are above 1). Exhaustive only for 2 "
          "and 4 teams.")
 
+CHECKS["C08"] = dict(
+    category="model_checking", design_ref="DESIGN.md section 2 (C08)",
+    technique="travel model in TLA+ (per-team walk, bye penalty); TLC checks bounds and the bye clause of the model on "
+              "all small plans/matrices and computes the complete feasible set of the 4-team double round robin; real "
+              "lengths, bye replacements and the optimum over that set validated by TLC",
+    text="MC_Len.tla: for all small matrices (all for n<=3, circulant for n=4) and all plans with byes the model stays in "
+         "[0, n*days*P] and every game->bye replacement strictly increases it. Trace_TTP recomputes every recorded "
+         "GamePlanLength value and every recorded bye replacement (up to 40 positions per plan) for random symmetric/"
+         "asymmetric matrices, n<=12. Thorough: TLC's complete feasible set (1 920 plans) is evaluated on the seven "
+         "shipped 4-team instances and its minimum must equal the published optimum.",
+    note="Optimum clause only in the thorough tier (3.26M TLC states). Distances below 2^31 / n / days.")
+CHECKS["C15"] = dict(
+    category="model_checking", design_ref="DESIGN.md section 2 (C15)",
+    technique="decoder step machine in TLA+ over all code sequences (consistency, multiplicity, monotone placement, "
+              "drop only if no free day) replayed into map_games; real blueprints and random permutations validated "
+              "by TLC",
+    text="MC_Games.tla places games one by one on the earliest free day; TLC checks the invariants after every step "
+         "for ALL sequences of L codes and equality with the functional form; every terminal state is decoded by the "
+         "real map_games into a dirty array and compared. The real search spaces for n=2..16, rounds=1..6 are checked "
+         "against BlueprintClause (pair multiplicity = rounds, pair and team home/away balance, sortedness), random "
+         "permutations (even and odd n, tight day budgets) are re-derived by TLC.",
+    note="Exhaustive for n<=4 (5 thorough) and short sequences only.")
+
 NOT_YET = {
 }
 
